@@ -71,9 +71,10 @@ pub fn run_case(lines: &[Vec<String>], o: &mut Out) {
                         let (weighted, normalized, withdef) = (t.i() != 0, t.i() != 0, t.i() != 0);
                         let r = guard(|| betweenness::betweenness_centrality(gr, weighted, normalized));
                         if result_obs(o, 1050, &r) {
-                            // kinds 51/52 are flags computed by the model (tie independence,
-                            // model = definition); the implementation side is the constant 1
+                            // kinds 51/53/52 are flags computed by the model (tie independence, adjacency
+                            // shape assumed by the stage theorems, model = definition); the implementation side is the constant 1
                             o.obs(51, &[vec![1]], &[]);
+                            o.obs(53, &[vec![1]], &[]);
                             if withdef {
                                 o.obs(52, &[vec![1]], &[]);
                             }
